@@ -49,6 +49,7 @@ FAMILY = [
     ("p/addn-5/out.json", "p/addn-5", "file"),
     ("p/addn-5/pic.png", "p/addn-5", "file"),
     ("p/addn-5/x.unknownext", "p/addn-5", "file"),
+    ("p/addn-5/res.v2.json", "p/addn-5", "file"),     # several dots: the extension is what follows the LAST one
     ("p/addn-~X~/lnk~E", "p", "cmd"),
     ("p/sub", "p", "cmd"),
     ("p/twice", "p", "cmd"),          # text -> longer text: same state type before and after
@@ -206,13 +207,13 @@ def ob_metadata_hit_store(v: int, first_with_key: bool) -> bool:
 EXTS = sorted(MIMETYPES.keys())
 
 
-def ob_mimetype(ei: int, upper: bool) -> bool:
+def ob_mimetype(ei: int, upper: bool, dots: bool) -> bool:
     """
     pre: 0 <= ei <= len(EXTS)
     post: _
     """
     ext = "unknownext" if ei == len(EXTS) else EXTS[pick(ei, len(EXTS) + 1)] if ei < len(EXTS) else "unknownext"
-    fn = "name." + (ext.upper() if upper else ext)
+    fn = ("name.v2." if dots else "name.") + (ext.upper() if upper else ext)
     st = mkstate("p/x", Box(1)).with_filename(fn)
     m = st.metadata
     ok = m["filename"] == fn and m["extension"] == ext.lower() and st.mimetype() == MIMETYPES.get(ext.lower(), "application/octet-stream")
